@@ -5,14 +5,17 @@ import gen as G
 import codec
 from present import Presenter
 
-MODEL_TARGETS = ["model/Ser.vo", "spec/Denote.vo"]
-COQ_TARGETS = ["props/C13.vo"]
-THEOREMS = [("C13", ["C13_perm", "C13_perm_variant", "C13_perm_map", "C13_schema_order", "C13_nopanic", "C13_perm_nested", "C13_perm_split", "C13_perm_union_named", "C13_perm_union_typed", "C13_duplicate_field"])]
-PROOF_FILES = ["proofs/RecordProofs.v", "props/C13.v", "proofs/RecordPermProofs.v"]
+MODEL_TARGETS = ["model/Ser.vo", "spec/Denote.vo", "model/SerHistory.vo"]
+COQ_TARGETS = ["props/C13.vo", "proofs/SerDispatchTie.vo"]
+THEOREMS = [("C13", ["C13_perm", "C13_perm_variant", "C13_perm_map", "C13_schema_order", "C13_nopanic", "C13_perm_nested", "C13_perm_split", "C13_perm_union_named", "C13_perm_union_typed", "C13_duplicate_field"]),
+            ("SerDispatchTie", ["tie_ser_bool", "tie_ser_integer", "tie_ser_f32", "tie_ser_f64", "tie_ser_str", "tie_ser_bytes", "tie_ser_unit", "tie_ser_unit_struct", "tie_ser_unit_variant", "tie_ser_seq", "tie_ser_map", "tie_ser_forward_names", "tie_ser_simple_forwards", "ser_int_leaf_is_rows", "ser_str_leaf_is_rows", "ser_bytes_leaf_is_rows"])]
+PROOF_FILES = ["proofs/RecordProofs.v", "props/C13.v", "proofs/RecordPermProofs.v", "proofs/SerDispatchTie.v"]
 TRUSTED_BASE = [
+    "dispatch tie: translators/gen_ser_dispatch.py (+ rustmatch.py) reads the arms of the serialize_* methods of DatumSerializer into gen/GenSerDispatch.v; proofs/SerDispatchTie.v ties them to the rows of model/Ser.v (leaf functions proved to be the interpretation of the rows on non-union nodes; 2 arms unclassified: the Decimal arm of serialize_integer and the Union arm of serialize_unit_variant)",
     "Coq 8.16.1 kernel; no axioms (Print Assumptions: closed)",
     "hand-written model/Ser.v of ser/serializer/{mod,struct_or_map,seq_or_tuple,blocks,decimal}.rs, tied by the correspondence run (bytes and outcomes, every permutation)",
-    "extraction (ExtrOcamlBasic) + ocaml/driver.ml; Rust harness (SVal realises any Serializer call tree)",
+    "extraction (ExtrOcamlBasic) + ocaml/driver.ml; Rust harness (SVal realises any Serializer call tree; sinks: Vec, a writer taking at most K bytes per write call, a fixed-size slice)",
+    "sinks: the model's writer is write_all on a byte budget (Ser.write, s_budget); that a writer accepting only a prefix per `write` call receives the same bytes through write_all is std's contract, not modelled further",
 ]
 ASSUMPTIONS = [
     "theorems are about the model; the tie to the crate is differential testing over all permutations of up to 5 fields and random larger ones",
@@ -98,17 +101,92 @@ def run(ctx):
                 sv = render([i for i in order if i != drop], form)
             lines.append("ser %s %s%s" % (s["schema"], sv, slow))
             meta.append((s, kind, perm, (), form))
+    # ---- directed family: records most of whose fields are omittable; every subset of omitted null-holding fields x orders
+    import directed as D
+    ndir = 50 if ctx["tier"] == "quick" else 2000
+    dpairs = []
+    for _ in range(ndir):
+        nodes = D.nullable_record_case(rng)
+        v = D.value_with_nulls(rng, nodes)
+        if v is not None:
+            dpairs.append((nodes, v))
+    dspecs = codec.spec_batch(dpairs)
+    cases = [D.RecCase(rng, s) for s in dspecs]
+    for rc in cases:
+        for line, perm, sub, form in rc.omission_lines(5, 12):
+            lines.append(line); meta.append((rc.spec, "ok", perm, sub, form))
+    # ---- other sinks: a writer whose `write` takes at most K bytes per call (short writes), a fixed-size slice exactly as
+    #      large as the encoding (same bytes), a slice that is too small (Err, never Ok with a truncated record)
+    sink_cases = cases + [D.RecCase(rng, s) for s in specs[:40 if ctx["tier"] == "quick" else 1500]]
+    for rc in sink_cases:
+        full = len(C.unhex(rc.spec["canon"]))
+        sinks = ["(sink short %d)" % k for k in (1, 2, rng.choice([3, 5, 8]))] + ["(sink fixed %d)" % full]
+        small = sorted(set(x for x in (full - 1, full - 2, full // 2, 0, rng.randrange(0, max(1, full))) if 0 <= x < full))
+        for sink in sinks:
+            for line, perm, sub, form in rc.omission_lines(3, 4, sink=sink):
+                lines.append(line); meta.append((rc.spec, "ok", perm, sub, form + " " + sink))
+        for x in small:
+            for line, perm, sub, form in rc.omission_lines(2, 3, sink="(sink fixed %d)" % x):
+                lines.append(line); meta.append((rc.spec, "too-small", perm, sub, form + " (sink fixed %d)" % x))
     impl, model = codec.both(lines)
+    # ---- histories on ONE SerializerConfig: a presentation of the record that fails while fields sit in the reordering
+    #      buffers (duplicate, unknown, missing required, failing value, failing sink), then every kind of presentation of
+    #      the same record: the bytes must still be the schema-order bytes
+    hlines, hmeta = [], []
+    for rc in cases + [D.RecCase(rng, s) for s in specs[:30 if ctx["tier"] == "quick" else 1000]]:
+        fails = rc.failing_first_steps()
+        if not fails:
+            continue
+        probes = rc.omission_lines(4, 3)
+        slow = 1 if rc.slow else 0
+        for kind, fsv, budget in fails:
+            for line, perm, sub, form in rng.sample(probes, min(len(probes), 4)):
+                probe = line[len("ser %s " % rc.spec["schema"]):]
+                if rc.slow:
+                    probe = probe[:-len(" slow")]
+                hlines.append("hist %s %d (job %s %s) (job %s none)" % (rc.spec["schema"], slow, fsv, budget, probe))
+                hmeta.append((rc.spec, [kind], perm, sub))
+                if rng.random() < 0.25:
+                    k2, f2, b2 = rng.choice(fails)
+                    hlines.append("hist %s %d (job %s %s) (job %s %s) (job %s none)" % (rc.spec["schema"], slow, fsv, budget, f2, b2, probe))
+                    hmeta.append((rc.spec, [kind, k2], perm, sub))
+    himpl, hmodel = codec.both(hlines)
     violations, diffs, samples, distinct = [], [], [], set()
     from collections import Counter
     dist = Counter()
+    for line, ri, rm, (s, kinds, perm, sub) in zip(hlines, himpl, hmodel, hmeta):
+        distinct.add(line)
+        dist["history/" + kinds[0].split("-at-")[0]] += 1
+        pi, pm = C.parse_sx(ri), C.parse_sx(rm)
+        if not pi or pi[0][0] != "ok":
+            violations.append({"impl_case": line, "what": "history crashed", "impl": ri[:300]})
+            continue
+        items = [C.canon_impl(C.show_sx(x)) for x in pi[0][1:]]
+        if "(unmodelled)" not in rm:
+            mitems = [C.show_sx(x) for x in pm[0][1:]] if pm and pm[0][0] == "ok" else None
+            if mitems is None or len(mitems) != len(items) or any(not C.same_outcome(a, b) for a, b in zip(items, mitems)):
+                diffs.append(codec.diff_entry(line, ri, rm))
+        if any(x.startswith("(panic") for x in items):
+            violations.append({"impl_case": line, "what": "panic while serializing a record in a history on one configuration", "impl": ri[:300]})
+            continue
+        for k, it in zip(kinds, items[:-1]):
+            if it.startswith("(ok") and k.split("-")[0] in ("duplicate", "unknown", "missing"):
+                violations.append({"impl_case": line, "what": "a record with a %s field was accepted" % k.split("-")[0], "impl": ri[:300]})
+        if items[-1] != "(ok %s)" % s["canon"]:
+            violations.append({"impl_case": line, "what": "after a failed serialization (%s) on the same configuration, field order %s with %d nullable "
+                               "fields omitted does not give the schema-order bytes" % (", ".join(kinds), list(perm), len(sub)),
+                               "impl": items[-1][:300], "expected": s["canon"][:300]})
     for line, ri, rm, (s, kind, perm, sub, form) in zip(lines, impl, model, meta):
         distinct.add(line)
-        dist["%s/%s" % (kind, form)] += 1
+        dist["%s/%s" % (kind, form.split(" (sink")[0] + ("/sink-" + form.split("(sink ")[1].split(" ")[0] if "(sink" in form else ""))] += 1
         if not C.same_outcome(ri, rm):
             diffs.append(codec.diff_entry(line, ri, rm))
         if ri.startswith("(panic") or ri.startswith("(crash"):
             violations.append({"impl_case": line, "what": "panic while serializing a record (%s)" % kind, "impl": ri[:200]})
+        elif kind == "too-small":
+            if ri.startswith("(ok"):
+                violations.append({"impl_case": line, "what": "Ok although the output slice is smaller than the record's encoding (%d bytes)" % len(C.unhex(s["canon"])),
+                                   "impl": ri[:300]})
         elif kind == "ok":
             if ri != "(ok %s)" % s["canon"]:
                 violations.append({"impl_case": line, "what": "field order %s with %d nullable fields omitted does not give the schema-order bytes" % (list(perm), len(sub)),
@@ -118,9 +196,12 @@ def run(ctx):
                 violations.append({"impl_case": line, "what": "a record with a %s field was accepted" % kind, "impl": ri[:200]})
         if len(samples) < 5 and kind == "ok" and sub:
             samples.append({"fields": len(perm), "order": list(perm), "omitted_nullable": list(sub), "form": form})
-    return {"evaluations": len(lines), "distinct_nontrivial": len(distinct),
+    return {"evaluations": len(lines) + len(hlines), "distinct_nontrivial": len(distinct),
             "rule": "record schemas (2..6 fields: nulls, unions with null, nested records, arrays/maps of records, logical types) x ALL permutations "
                     "of the presented fields (sampled beyond 4 fields) x subsets of omitted nullable fields x {struct, struct variant, map entries, "
                     "map key/value}; expected: exactly the specification's schema-order bytes (extracted spec_encode); duplicate, unknown and "
-                    "missing-required injections must fail; never a panic; model vs crate on every case",
+                    "missing-required injections must fail; never a panic; model vs crate on every case; a directed family of records with "
+                    "mostly omittable fields (every omission subset x orders); the same presentations through short-writing sinks and "
+                    "exact-size slices (same bytes) and too-small slices (Err); two- and three-step histories on one configuration: a "
+                    "presentation failing while fields are buffered, then presentations that must still give the schema-order bytes",
             "samples": samples, "violations": violations, "model_diffs": diffs, "distribution": dict(dist)}
